@@ -403,6 +403,11 @@ def check(run: Run) -> None:
     run.rule("C07.R7", "dictionary literals are typed whenever their keys can be dataclass fields (shared with C08.R7 / C10.R3)")
     tctx = TermCtx(m, max_depth=1, opaque={"lookup_type", "remap_by_types"})
     check_dict_typing(run, tctx, m, used_visitor(m, tctx, m.find_func("remap_by_types", in_module=mod), True), "C07.R7")
+    # calls inside lambdas handed to the operators of a sequence are only normalised if the sequence is recognised as one and the lambda is followed
+    from .c08 import check_iterable_test, check_nested_lambda_followed
+
+    check_iterable_test(run, m, "C07.R9")
+    check_nested_lambda_followed(run, m, used_visitor(m, tctx, m.find_func("remap_by_types", in_module=mod), True), "C07.R10")
 
 
 def _self_fact(a: ast.AST, pol: bool):
